@@ -74,6 +74,11 @@ pub fn run_property(c: &mut ctx::Ctx) -> bool {
             props_c17::semantic_key_histories(c, mon, ops);
         }
     }
+    // ... and a sample of its own judged calls again, from 8 threads at once
+    if c.pid != "C01" && c.pid != "C17" && !c.small {
+        let mon = format!("{}.concurrent-replay", c.pid.to_lowercase());
+        props_c17::concurrent_replay(c, &mon);
+    }
     true
 }
 
